@@ -479,6 +479,8 @@ class FlowMixin:
         new_time = self.loop_field(st, "time")
         st.assume(new_time >= old_time)
         st.last_susp = st.snap()
+        st.inv_base = st.last_susp
+        self.assume_invariants_eagerly(st)
         outs = []
         # --- resumption 1: an interrupt of the Interrupt family, live and addressed to me
         s1 = st.copy()
@@ -516,6 +518,8 @@ class FlowMixin:
         """obligations at a yield point: class invariants + declared suspension assertions"""
         self.assert_invariants(st, where="suspend")
         c = self.cur_contract
+        if c is not None:
+            self.check_guarantee(c, st, "suspend")
         if c is not None and len(st.frames) >= 1:
             for i, cl in enumerate(c.at_suspension):
                 if self.in_top_frame(st):
@@ -546,6 +550,8 @@ class FlowMixin:
         st.final_from = getattr(st, "final_from", None) or old_epoch
         st.touched = frozenset()
         st.inv_base = None
+        st.inv_over = {}
+        st.inv_hist = ()
         # objects allocated by this activity stay allocated/distinct: nothing to do (Ref terms persist)
         c = self.cur_contract
         # list lengths are non-negative in every reachable heap
@@ -574,11 +580,15 @@ class FlowMixin:
                 elif when is None:
                     st.assume(nv == ov)
                 else:
-                    wkey, wty, _ = self.field_decl(cn, when)
-                    warr = pre.heap.get(wkey)
-                    if warr is None:
-                        warr = st.hs.initial(pre.epoch, wkey, self.key_sort(wkey, wty))
-                    st.assume(z3.Implies(z3.Select(warr, o), nv == ov))
+                    conds = []
+                    for wf in when.split("|"):
+                        wkey, wty, _ = self.field_decl(cn, wf)
+                        warr = pre.heap.get(wkey)
+                        if warr is None:
+                            warr = st.hs.initial(pre.epoch, wkey, self.key_sort(wkey, wty))
+                        wv = z3.Select(warr, o)
+                        conds.append(wv if wty[0] == "bool" else wv != NULL)
+                    st.assume(z3.Implies(z3.Or(*conds), nv == ov))
         if c is None:
             return
         for ex in c.stable:
@@ -604,6 +614,7 @@ class FlowMixin:
         self.havoc_heap(st, full=True, reason="user await", pre=pre)
         st.assume(self.loop_field(st, "time") >= old_time)
         st.last_susp = st.snap()
+        st.inv_base = st.last_susp
         outs = []
         s1 = st.copy()
         r = fresh_val("result", ANY)
